@@ -24,6 +24,7 @@ RULE = (
     "mapping onto a non-plain-range target, or depth >= 1"
     ' Also (added while the seeded-change rounds of DESIGN section 9 ran): Also: long / default-looking / one-word labels, label aliases (read, and written where safe), failed saves in the past, project contexts written as older versions.'
 )
+RULE += " Rounds 12-14 of DESIGN section 9 added: files re-encoded with 1 / 27 / 64 / 90 mapping items and the CHNK count SunVox declares, count raised, slots beyond the stored ones mapped (item replaced or edited in place) and named."
 ASSUMPTIONS = [
     "mapping 'controller' is the 0-based index the library itself uses when it resolves a mapping",
     "values are assigned through a user controller (under its own name or, for one-word lower-case labels, under its label alias u_<label>) only on the outermost MetaModule, when its mapping names an existing embedded ranged / enum / boolean controller and no other mapping names the neighbouring controller of that module",
